@@ -1,4 +1,4 @@
-import OpcuaModel.Model.LinearLemmas
+import OpcuaModel.Model.LinearApp
 import OpcuaModel.Gen.Dispatch
 /-
   C34 — concurrent reads and writes of node values are linearizable.
@@ -18,10 +18,22 @@ import OpcuaModel.Gen.Dispatch
   (`C34_register_history`).  The correspondence run checks on real concurrent
   clients that the hooked dispatcher order is such a linearization.
 
-  Hypothesis (stated, not provable from the source): `Server.Start` is called
-  once, and the embedding application does not call `Node.SetAttribute` /
-  mutate node values while clients are served — the node value has no lock
-  (`Gen.nodeMethodLockOps = 0`), mutual exclusion comes from the dispatcher only.
+  The embedding application (part 3, `Model/LinearApp.lean`): the node value has no
+  lock (`Gen.nodeMethodLockOps = 0`); mutual exclusion of client requests comes
+  from the dispatcher only, and application code runs outside it.  Application
+  steps that touch only the value word of a node (`node.SetAttribute(Value, …)`,
+  `node.Value()`, the background `go ChangeNotification`) may fall between the
+  access check and the value access of a client handler; they commute with the
+  check (`C34_value_steps_commute`), so every such history is still linearized
+  by the order of the single accesses to `n.val` (`C34_app_atomic`,
+  `C34_app_step_refines`).  An application write of AccessLevel /
+  UserAccessLevel between check and access is where it ends: the split handler
+  then produces a history without any linearization
+  (`C34_app_access_write_not_linearizable`) — and physically it is a concurrent
+  Go map write.  Remaining hypotheses: `Server.Start` is called once; word-sized
+  loads and stores of `n.val` are coherent (true on the supported platforms, not
+  promised by the Go memory model for racy accesses); the application does not
+  write other attributes of a node while clients use that node.
 -/
 namespace Opcua.Props.C34
 open Opcua.Linear Opcua.Access
@@ -193,6 +205,83 @@ theorem C34_server_linearizable (sv0 : Server) (tr : List (Ev Op Res)) (m : M Se
     | cons e r ih => simp [ih]
   rw [hz] at this
   exact this
+
+-- ---------------------------------------------------------------- the embedding application
+
+/-- application steps taken as atomic steps next to the client requests: the generic theorem applies,
+    the linearization order is the order of the steps -/
+theorem C34_app_atomic (sv0 : Server) (tr : List (Ev XOp Res)) (m : M Server XOp Res)
+    (h : mrun stepX (M.init sv0) tr = some m) :
+    seqRun stepX sv0 (m.log.map (·.2.1)) = (m.log.map (·.2.2), m.st) ∧
+    (∀ id r, Ev.resp id r ∈ tr → ∃ op, (id, op, r) ∈ m.log) ∧
+    (∀ t1 t2 b opb, tr = t1 ++ Ev.inv b opb :: t2 → ∀ a r, Ev.resp a r ∈ t1 →
+      ∃ l1 l2, m.log = l1 ++ l2 ∧ a ∈ logIds l1 ∧ b ∉ logIds l1) :=
+  C34_linearizable stepX sv0 tr m h
+
+/-- what the application steps are as register operations: `SetAttribute(Value, d)` sets exactly
+    the register of that node (no access check), a read returns the register and changes
+    nothing, a write of another attribute changes no register -/
+theorem C34_app_step_refines (sv : Server) (i k : Nat) (d : DV) (a : Nat) :
+    (abs (stepX sv (.appSetValue i k d)).2 =
+      fun key => if key = (i, k) then (abs sv key).map (fun _ => d) else abs sv key) ∧
+    ((stepX sv (.appGetValue i k)).2 = sv ∧
+      ∀ x, (stepX sv (.appGetValue i k)).1 = .value x → abs sv (i, k) = some x) ∧
+    (abs (stepX sv (.appSetAttr i k a d)).2 = abs sv) := by
+  refine ⟨?_, ⟨rfl, ?_⟩, ?_⟩
+  · funext key
+    obtain ⟨i', k'⟩ := key
+    simp only [stepX, abs, node_updNode]
+    by_cases h : i' = i ∧ k' = k
+    · obtain ⟨rfl, rfl⟩ := h
+      cases sv.node i' k' <;> simp
+    · have : ¬ ((i', k') = (i, k)) := by simpa using h
+      simp [h, this]
+  · intro x hx
+    simp only [stepX, abs] at hx ⊢
+    cases hn : sv.node i k with
+    | none => simp [hn] at hx
+    | some n =>
+      simp only [hn] at hx
+      cases hv : n.val <;> simp_all
+  · funext key
+    obtain ⟨i', k'⟩ := key
+    simp only [stepX, abs, node_updNode]
+    by_cases h : i' = i ∧ k' = k
+    · obtain ⟨rfl, rfl⟩ := h
+      cases sv.node i' k' <;> simp
+    · simp [h]
+
+/-- MAIN for the application: whatever application steps that touch only value words fall
+    between the access check of a client handler and its value access, the handler's outcome
+    and effect are those of the atomic handler executed at the moment of the value access -/
+theorem C34_value_steps_commute (sv : Server) (op : Op) (xs : List XOp)
+    (h : ∀ x ∈ xs, x.valueOnly = true) :
+    act (runX sv xs) op (chk sv op) = step (runX sv xs) op := by
+  rw [← chk_runX_valueOnly xs sv h op, act_chk]
+
+/-- … and that is exactly where it ends.  Node without restriction holding 0; a client write of 7
+    passes the check; the application then makes the node read-only and reads 0; the handler
+    stores 7 and answers Good.  The three completed operations have NO linearization w.r.t. the
+    access-checked register (the write must precede the level change, the read follows the
+    level change, yet it saw the old value); with a value-only step in the same place they do -/
+theorem C34_app_access_write_not_linearizable :
+    let n : Node := { attrs := [], val := .v tyInt32 0 }
+    let sv : Server := fun i => if i = 1 then some (fun k => if k = 0 then some n else none) else none
+    let w : Op := .write 1 0 aValue (.v tyInt32 7)
+    let a : XOp := .appSetAttr 1 0 aAccessLevel (.v tyByte 1)
+    let r : XOp := .appGetValue 1 0
+    -- the split execution: check, application steps, value access
+    (stepX (stepX sv a).2 r).1 = .value (.v tyInt32 0) ∧
+    (act (runX sv [a, r]) w (chk sv w)).1 = .status .ok ∧
+    ((act (runX sv [a, r]) w (chk sv w)).2.node 1 0).map (·.val) = some (.v tyInt32 7) ∧
+    -- the atomic handler at that moment would have refused
+    (step (runX sv [a, r]) w).1 = .status .badUserAccessDenied ∧
+    -- no linearization of the observed history
+    linB sv [⟨.client w, .status .ok, 0, 7⟩, ⟨a, .status .ok, 2, 3⟩, ⟨r, .value (.v tyInt32 0), 4, 5⟩] = false ∧
+    -- the same shape with a value-only application step is linearizable
+    linB sv [⟨.client w, .status .ok, 0, 7⟩, ⟨.appSetValue 1 0 (.v tyInt32 3), .status .ok, 2, 3⟩,
+             ⟨r, .value (.v tyInt32 3), 4, 5⟩] = true := by
+  decide
 
 /-- non-vacuity: two clients, overlapping write and read; both orders of the dispatcher are traces -/
 example :
